@@ -24,7 +24,7 @@ ENGINES["diffsim"] = {
 }
 
 ENGINES["tasksim"] = {
-    "serves": ["C14", "C16", "C19"],
+    "serves": ["C14", "C16", "C17", "C19"],
     "kind": "real goroutines parked at harness-owned blocking points and simhook yields, released one at a time by the seeded scheduler inside a synctest bubble",
     "real_vs_stub": {"real": ["app/ocache (oCache, entry) with verif yield points", "net/streampool (streamPool, stream, ExecPool) with verif yield points", "github.com/cheggaaa/mb queues"],
                      "stub": ["LoadFunc and Object (harness-owned: every load/Close/TryClose is a scheduler-released blocking point; outcomes chosen by the seed)",
@@ -227,7 +227,7 @@ PROPS = {
         "engine": "tasksim",
         "level": "exploration",
         "budget": {"quick": 40, "thorough": 600},
-        "rule": "one run = 2-3 real secure services (protocol version 11-14, accepted-version lists, RequireClientAuth, node or client role through a node-configuration stub) and 1-3 concurrent connections between seeded (dialer, listener) pairs, with or without CtxAllowAccountCheck; each end runs HandshakeOutbound/HandshakeInbound over a harness byte pipe with a 30 s deadline on the fake clock. "
+        "rule": "one run = 2-3 real secure services (protocol version 11-14 or 0 = no version on the wire, accepted-version lists, RequireClientAuth, node or client role through a node-configuration stub) and 1-3 concurrent connections between seeded (dialer, listener) pairs, with or without CtxAllowAccountCheck; each end runs HandshakeOutbound/HandshakeInbound over a harness byte pipe with a 30 s deadline on the fake clock. "
                 "The scheduler orders every Read/Write of every handshake goroutine (pooled handshake objects are reused across connections), chooses every chunk size (60% of runs), and in 65% of runs injects network faults into unfinished connections: truncation at any byte, garbage bytes, oversized frame headers, reordered / duplicated / unexpected frames, credentials recorded on a connection between other endpoints, a direction that goes silent forever. "
                 "Oracles: every side returns by its deadline; without faults both sides reach the same verdict and it is success exactly when each version is in the other's accepted list and identity demands match (reference predicate over the configuration, independent of the checkers); on success the context carries the remote peer id and version, and the remote account identity exactly when that side verified; "
                 "with faults a side reports success only if what it consumed is exactly the two authentic frames of this connection, in order and in full (two-generals guard: the other side may legitimately fail), and never when the configuration forbids the handshake. evaluations = connections judged.",
@@ -283,6 +283,27 @@ PROPS = {
         "technique": "deterministic simulation: seeded operation histories with restart-as-operation, differential oracle against a freshly rebuilt index after every step",
         "level_text": "Seeded exploration of operation histories with a differential oracle (live index vs freshly filled index vs second history) evaluated after every operation.",
         "level_note": "ldiff is real; reference = the same code filled in one call (the property's own definition of history independence)",
+    },
+    "C17": {
+        "engine": "tasksim",
+        "level": "exploration",
+        "budget": {"quick": 60, "thorough": 900},
+        "rule": "one run = one real pubsub engine in the relay role (node; 0-2 other responsible nodes) and 1-2 real pubsub engines in the client role (accounts A, B), each with its private stream pool, dial pool, dispatch loop and resync loop on the fake clock; a harness membership table (accounts A, B, C x spaces sA, sB) that changes during the run. "
+                "40-260 actions: the seeded scheduler runs one goroutine up to its next blocking point (every MsgRecv/MsgSend of every stream end and the yield points inside the engine and the pool: before each lock of handleSubscribe/handleUnsubscribe/fanout/evict/CloseSpace/onStreamClose, between dropping interest and dropping tags, addStream/removeStream/streamClose/Broadcast/SendById/getStreams); "
+                "remotes open streams to the node (accounts A/B/C, a second device of an account, an unverified peer, another responsible node) and send subscribe frames (1-3 valid patterns over the segment alphabet {a, b, acc, account ids, *, >}; invalid patterns: empty, leading/trailing/doubled separator, wildcard in the middle of a segment, '>' not last, 17 segments, 257 bytes; bad or foreign space ids), unsubscribe frames (one pattern, all, unknown), "
+                "publish frames (well-formed; invalid topic, short id, oversized, someone else's acc/ topic, identity replaced or missing, damaged signature, relayed flag from non-nodes, relayed messages from other nodes, foreign space), status/empty frames; remotes close; node writes fail; the node calls EvictMember / RevalidateMembers / CloseSpace; "
+                "clients call Subscribe / unsubscribe / Publish / CloseSpace / SyncInterest and go offline/online (their streams to the node are pairs of ends, so frames travel client -> node -> subscribers -> client handlers end to end); a hostile relay writes forged, replayed, stale, future-dated, re-targeted or truncated-identity publishes straight into client streams; the clock jumps by 1 s / 25 s / 6 min. "
+                "Reference model (from the property text) stepped at the same points: a subscribe is registered iff the stream has a handshake identity, the space id is well formed and served, every pattern is well formed and the account is a member at that moment; a publish is fanned out iff well formed, the node serves the space, and either it is relayed by a responsible node or its identity equals the stream's handshake identity, that account is a member and owns the acc/ topic; "
+                "recipients = streams in the pool whose routing tags include a registered pattern matching the topic segment by segment (own matcher). Oracles: every publish copy written to a stream must be expected and at most once; after faults stop every expected copy on a healthy stream was written; forwards to other nodes: exactly one relayed-marked copy per accepted client publish and node, none for relayed or refused ones; "
+                "after every scheduler grant the engine's per-stream interest records, trie refcounts and Len, and the pool's tags equal the model (three views agree, no empty leftovers); client handlers are called exactly for (active subscription x message) pairs that pass identity, membership, ownership, freshness, signature and first-delivery checks - compared after every received frame and API call; client API verdicts; "
+                "after teardown in a seeded order (unsubscribe or CloseSpace per client and space, then every stream ends) node and clients hold no tries, records, tags, streams or counters. evaluations = node state comparisons.",
+        "assumptions": COMMON_ASSUMPTIONS + ["interleavings at the granularity of harness blocking points and the verif yield points; regions between two points are atomic (no lock is held at a yield)",
+                                             "rate limiting and pattern caps are configured out of reach; dedup ring larger than the run (ring eviction, which by design re-admits old ids inside the skew window, is not exercised)",
+                                             "payload encryption (Deps.Crypto) is not wired: keyless spaces", "a subscribe frame is either all valid or carries one invalid pattern (the statement does not say what a mixed frame registers)"],
+        "technique": "deterministic simulation: seeded task scheduler over real relay and client pubsub engines with harness-owned streams, membership, clock, faults (remote close, write errors, evictions, hostile relay); reference model stepped at the scheduling points, delivery/forward/handler-call oracles and three-view state agreement after every grant, leak check after teardown",
+        "level_text": "Seeded exploration of interleavings x histories x topic/pattern inputs over the real engines; a reference model from the property text decides every delivery, forward and handler call, and the engine's bookkeeping is compared with it after every scheduler grant.",
+        "level_note": "pubsub engine, trie, dedup, signatures, stream pool and mb queues real; streams, peers, membership, relay topology are harness stubs; scheduler granularity = yield points",
+        "expected_probes": [],
     },
     "C19": {
         "engine": "tasksim",
